@@ -68,6 +68,11 @@ def _bloc_input(rng, kind, nb, n):
         inp["len"] = rng.choice([1, 2, 3, 5])
     if rng.random() < 0.12:
         inp["names"] = dict(zip(cands, rng.sample(D.AWKWARD, len(cands))))
+    if rng.random() < 0.12:
+        # the documented alternative constructor: preference intervals drawn from Dirichlet distributions (every support positive)
+        inp["via"] = "from_params"
+        inp["alpha"] = rng.choice([0.5, 1, 2, 5])
+        inp["sup"] = {b: {c: 1 for c in cands} for b in blocs}
     return inp
 
 
@@ -305,7 +310,11 @@ def call_work(inp):
                     kw["ballot_length"] = inp["len"]
                 if kind == "Cumulative":
                     kw["num_votes"] = inp["len"]
-                g = cls(**kw)
+                if inp.get("via") == "from_params":
+                    del kw["pref_intervals_by_bloc"]
+                    g = cls.from_params(alphas={b: {s: inp["alpha"] for s in blocs} for b in blocs}, **kw)
+                else:
+                    g = cls(**kw)
                 if kind == "BT_MCMC":
                     out = g.generate_profile_MCMC(N, by_bloc=inp["byb"])
                 elif kind == "sBT_MCMC":
